@@ -24,6 +24,7 @@ import (
 	"time"
 
 	"seehuhn.de/go/sfnt"
+	"seehuhn.de/go/sfnt/glyf"
 	"seehuhn.de/go/sfnt/header"
 	v "seehuhn.de/go/sfnt/verifharness/vlib"
 )
@@ -76,7 +77,7 @@ func runCycle(c *cycleCase) (line, impl string, fails []*failure, labels []strin
 		labels = append(labels, "a:oracle-only")
 		return "!" + head, "-", fails, labels, nil
 	}
-	line = head + " " + v.Str(fsx)
+	line = head + " " + v.Str(writeContext(f)) + " " + v.Str(fsx)
 	// observation
 	switch {
 	case res.W0 == nil:
@@ -102,9 +103,98 @@ func runCycle(c *cycleCase) (line, impl string, fails []*failure, labels []strin
 			impl = fmt.Sprintf("(off-grid %v %v)", terr, ferr)
 			break
 		}
-		impl = v.Str(v.L(v.Atom("ok"), tsx, f1sx))
+		impl = v.Str(v.L(v.Atom("ok"), tsx, f1sx, writtenTags(res.W0), nameTableObs(f, res.W0)))
 	}
 	return line, impl, fails, labels, nil
+}
+
+// writeContext lists what Write reads besides the model's font record: the
+// day strings time.Format gives for the two timestamps and the keys of
+// glyf.Outlines.Tables.
+func writeContext(f *sfnt.Font) v.Sx {
+	day := func(t time.Time) v.Sx {
+		if t.IsZero() {
+			return v.Hex(nil)
+		}
+		return v.Hex([]byte(t.Format("2006-01-02")))
+	}
+	extra := v.List{v.Atom("extra")}
+	if o, ok := f.Outlines.(*glyf.Outlines); ok {
+		var tags []uint32
+		for k := range o.Tables {
+			if len(k) == 4 {
+				tags = append(tags, uint32(k[0])<<24|uint32(k[1])<<16|uint32(k[2])<<8|uint32(k[3]))
+			}
+		}
+		sort.Slice(tags, func(i, j int) bool { return tags[i] > tags[j] })
+		for _, t := range tags {
+			extra = append(extra, v.U64(uint64(t)))
+		}
+	}
+	return v.L(v.Atom("wctx"), v.L(v.Atom("days"), day(f.ModificationTime), day(f.CreationTime)), extra)
+}
+
+// writtenTags reads the table directory of a written file (an independent
+// 12+16n byte parse).
+func writtenTags(w []byte) v.Sx {
+	out := v.List{v.Atom("tags")}
+	if len(w) < 12 {
+		return out
+	}
+	n := int(w[4])<<8 | int(w[5])
+	var tags []uint32
+	for i := 0; i < n && 12+16*i+4 <= len(w); i++ {
+		p := 12 + 16*i
+		tags = append(tags, uint32(w[p])<<24|uint32(w[p+1])<<16|uint32(w[p+2])<<8|uint32(w[p+3]))
+	}
+	sort.Slice(tags, func(i, j int) bool { return tags[i] < tags[j] })
+	for _, t := range tags {
+		out = append(out, v.U64(uint64(t)))
+	}
+	return out
+}
+
+func printableASCII(s string) bool {
+	for i := 0; i < len(s); i++ {
+		if s[i] < 32 || s[i] > 126 {
+			return false
+		}
+	}
+	return true
+}
+
+// nameTableObs prints the records and the string storage of the written name
+// table (parsed from the bytes) when every string of the font is printable
+// ASCII and a timestamp is set; "-" otherwise.
+func nameTableObs(f *sfnt.Font, w []byte) v.Sx {
+	for _, s := range []string{f.FamilyName, f.Description, f.SampleText, f.Copyright, f.Trademark, f.License, f.LicenseURL} {
+		if !printableASCII(s) {
+			return none
+		}
+	}
+	if f.CreationTime.IsZero() && f.ModificationTime.IsZero() {
+		return none
+	}
+	dir, err := header.Read(bytes.NewReader(w))
+	if err != nil {
+		return v.Atom("(no-directory)")
+	}
+	b, err := dir.ReadTableBytes(bytes.NewReader(w), "name")
+	if err != nil || len(b) < 6 {
+		return v.Atom("(no-name-table)")
+	}
+	n := int(b[2])<<8 | int(b[3])
+	so := int(b[4])<<8 | int(b[5])
+	if 6+12*n > len(b) || so > len(b) {
+		return v.Atom("(bad-name-table)")
+	}
+	recs := make(v.List, n)
+	for i := 0; i < n; i++ {
+		p := 6 + 12*i
+		u := func(k int) v.Sx { return v.Int(int(b[p+k])<<8 | int(b[p+k+1])) }
+		recs[i] = v.L(u(0), u(2), u(4), u(6), u(10), u(8))
+	}
+	return v.L(v.Atom("nametab"), recs, v.Hex(b[so:]))
 }
 
 // ---------------------------------------------------------------- clause (b)
